@@ -29,7 +29,7 @@ var MangleKinds = []string{
 	"multi-region-exception-with-results", "multi-more-regions", "multi-fewer-regions", "multi-exception-no-name",
 	"kv-length-huge", "kv-length-wrap", "kv-keylen-bad", "kv-rowlen-bad", "kv-truncated",
 	"compress-total-wrong", "compress-chunk-past", "compress-chunk-garbage", "compress-chunk-zero", "compress-total-huge",
-	"value-resize", "scan-empty-partial",
+	"value-resize", "scan-empty-partial", "multi-result-missing",
 }
 
 func splitFrame(frame []byte) (h *pb.ResponseHeader, body, cells []byte, ok bool) {
@@ -248,7 +248,7 @@ func Mangle(r Rnd, method string, codec bool, structuralOnly bool, frame []byte)
 		}
 		body, _ = proto.Marshal(m)
 	case "multi-index-zero", "multi-index-large", "multi-index-dup", "multi-result-and-exception", "multi-neither",
-		"multi-region-exception-with-results", "multi-more-regions", "multi-fewer-regions", "multi-exception-no-name":
+		"multi-region-exception-with-results", "multi-more-regions", "multi-fewer-regions", "multi-exception-no-name", "multi-result-missing":
 		if method != "Multi" || !hasBody {
 			return frame, "", false
 		}
@@ -309,6 +309,20 @@ func Mangle(r Rnd, method string, codec bool, structuralOnly bool, frame []byte)
 			}
 		case "multi-fewer-regions":
 			m.RegionActionResult = m.RegionActionResult[:len(m.RegionActionResult)-1]
+		case "multi-result-missing":
+			// an otherwise consistent response that says nothing about one action
+			// (one whose result carries no cells, so that the cellblock still fits)
+			var idx []int
+			for i, x := range ra.ResultOrException {
+				if x.Exception != nil || x.Result == nil || (x.Result.GetAssociatedCellCount() == 0 && len(x.Result.Cell) == 0) {
+					idx = append(idx, i)
+				}
+			}
+			if len(idx) == 0 {
+				return frame, "", false
+			}
+			i := idx[r.Intn(len(idx))]
+			ra.ResultOrException = append(ra.ResultOrException[:i:i], ra.ResultOrException[i+1:]...)
 		case "multi-exception-no-name":
 			if r.Chance(0.5) || roe == nil {
 				ra.Exception = &pb.NameBytesPair{Value: []byte("no name")}
